@@ -114,6 +114,20 @@ def check_pair(mod, label, tabs, N, rng):
                 bad.append(("%s.ft2:parseval" % label, dict(N=N, delta=delta)))
         if bad:
             break
+    # long batches (33, 70 frames): every frame of the cube is the transform of that frame alone
+    if 2 <= N <= 5:
+        for nb in (33, 70):
+            cube = rng.standard_normal((nb, N, N)) + 1j * rng.standard_normal((nb, N, N))
+            line = rng.standard_normal((nb, N)) + 1j * rng.standard_normal((nb, N))
+            for fn, arr, sp in (("ft2", cube, 0.5), ("ift2", cube, 1.0 / (N * 0.5)), ("ft", line, 0.5), ("ift", line, 1.0 / (N * 0.5))):
+                whole = np.asarray(getattr(mod, fn)(arr.copy(), sp))
+                each = np.array([np.asarray(getattr(mod, fn)(arr[i].copy(), sp)) for i in range(nb)])
+                if whole.shape != each.shape or not np.allclose(whole, each, rtol=0, atol=1e-12 * N * N * max(1.0, np.abs(each).max())):
+                    wrong = [int(i) for i in range(nb) if whole.shape == each.shape and not np.allclose(whole[i], each[i], rtol=0, atol=1e-10)]
+                    bad.append(("%s.%s:batch-of-%d-frames" % (label, fn, nb), dict(N=N, frames_wrong=wrong[:8])))
+                    break
+            if bad:
+                break
     # a shape this process has not transformed before, narrow dtypes FIRST (whatever an earlier call left behind must not matter)
     if N >= 2:
         from harness import prop_interp as PI_
